@@ -20,16 +20,23 @@ MAPPING = "parity_partner_coefficient_mapping"
 
 
 def locate_prefactor_function(tree: Tree) -> FuncInfo:
+    """The function whose result is multiplied into the sequential amplitude and that reads the
+    parity-partner mapping (found from the dataflow of __formulate_sequential_decay, not by name)."""
     seq = tree.func(f"{BUILDER}.__formulate_sequential_decay")
     rd = RD(seq.node)
     candidates = []
+    sources: list[ast.AST] = []
     for node in walk_function(seq.node):
         if isinstance(node, ast.AugAssign) and isinstance(node.op, ast.Mult):
-            for d in rd.closure(rd.uses(node.value)):
-                if d.value is not None and isinstance(d.value, ast.Call):
-                    callee = tree.callee(d.value, seq)
-                    if callee in tree.funcs:
-                        candidates.append(tree.funcs[callee])
+            sources.append(node.value)
+        if isinstance(node, ast.BinOp) and isinstance(node.op, ast.Mult):
+            sources += [node.left, node.right]
+    for src in sources:
+        for d in rd.closure(rd.uses(src)):
+            if d.value is not None and isinstance(d.value, ast.Call):
+                callee = tree.callee(d.value, seq)
+                if callee in tree.funcs:
+                    candidates.append(tree.funcs[callee])
     for f in candidates:
         if any(isinstance(n, ast.Attribute) and n.attr == MAPPING for n in walk_function(f.node)):
             return f
@@ -91,6 +98,30 @@ def check_selection_product(ctx: Check, tree: Tree, fn: FuncInfo, param: str) ->
         if "parity_prefactor" not in txt or not (rd.closure(rd.uses(u.value)) & loop_defs):
             problems.append(f"`{unparse(u)}` is not the parity factor of the node `{var}`")
     ctx.verdict(not problems, "R-DEPENDS", key, tree.loc(loop), f"{fn.qual}: product of interaction.parity_prefactor over exactly the nodes in `{param}`", problems or None)
+
+
+def check_daughter_order(ctx: Check, tree: Tree) -> None:
+    """R-PARTNER: the order in which the two daughters appear in a coefficient name must not depend
+    on their helicities - otherwise (+l, -l) and (-l, +l) of two identical daughters get the same
+    name (one coefficient, relative factor +1 instead of eta).  get_sorted_states sorts by particle
+    name only; ties keep the order of the state ids (sorted() is stable)."""
+    fn = tree.func("ampform.helicity.decay::get_sorted_states")
+    calls = [c for c in walk_function(fn.node) if isinstance(c, ast.Call) and unparse(c.func) == "sorted"]
+    problems = []
+    if len(calls) != 1:
+        raise AnalysisError(f"{fn.qual}: expected one sorted(...) call")
+    key = next((k.value for k in calls[0].keywords if k.arg == "key"), None)
+    if key is None:
+        problems.append("no sort key: State objects are ordered by all their fields, including the spin projection")
+    else:
+        body = key.body if isinstance(key, ast.Lambda) else key
+        attrs = {n.attr for n in ast.walk(body) if isinstance(n, ast.Attribute)}
+        if attrs & {"spin_projection", "helicity"}:
+            problems.append(f"the sort key `{unparse(body)}` depends on the spin projection")
+        if "name" not in attrs and "latex" not in attrs:
+            problems.append(f"the sort key `{unparse(body)}` is not the particle name")
+    ctx.verdict(not problems, "R-PARTNER", f"{fn.qual}::order-independent-of-helicity", tree.loc(fn.node),
+                "get_sorted_states orders the daughters by particle name only (never by helicity)", problems or None)
 
 
 def run(ctx: Check, tree: Tree) -> None:
@@ -247,6 +278,12 @@ def run(ctx: Check, tree: Tree) -> None:
     ctx.verdict(ok, "R-DEPENDS", f"{fn.qual}::raw-suffix-of-node", tree.loc(loop), f"the raw suffix is generate_two_body_decay_suffix(transition, {loop_var}) of the loop's node")
 
     ctx.section(check_partner_suffix, ctx, tree)
+    ctx.section(check_daughter_order, ctx, tree)
+    # the per-chain components A_{...} are an observation point of the property: they must be the complete
+    # chain amplitude including the parity sign (rule shared with C02)
+    from .c02 import check_products
+
+    ctx.section(check_products, ctx, tree)
     # "equivalently ... the Clebsch-Gordan expansion reproduces the canonical intensity": the expansion is the two-CG product of C02
     from .c02 import check_cg
 
